@@ -406,6 +406,15 @@ func (x *Exec) unop(st *State, ins *ssa.UnOp) SVal {
 		if x.H.FieldAccess != nil {
 			x.H.FieldAccess(x, st, v.Loc, false, nil, ins.Pos())
 		}
+		if _, isFn := ins.Type().Underlying().(*types.Signature); isFn {
+			if _, known := st.Heap[v.Loc]; !known {
+				if fv, ok := ins.X.(*ssa.FreeVar); ok {
+					if cl, ok := x.localClosure(fv); ok {
+						return cl
+					}
+				}
+			}
+		}
 		r := x.load(st, v.Loc, ins.Type(), ins.Pos())
 		if r.GoT == nil {
 			r.GoT = ins.Type()
@@ -431,6 +440,55 @@ func (x *Exec) unop(st *State, ins *ssa.UnOp) SVal {
 	}
 	x.unsupp(st, "unary op %s", ins.Op)
 	return mkU("nil")
+}
+
+// localClosure: the free variable names a variable of an enclosing function that holds exactly one function
+// literal (a local helper such as `reset` or `flush`); the helper is then executed in place, its own free
+// variables naming the same cells.
+func (x *Exec) localClosure(fv *ssa.FreeVar) (SVal, bool) {
+	for p := fv.Parent().Parent(); p != nil; p = p.Parent() {
+		for _, b := range p.Blocks {
+			for _, ins := range b.Instrs {
+				al, ok := ins.(*ssa.Alloc)
+				if !ok || al.Comment != fv.Name() {
+					continue
+				}
+				var mc *ssa.MakeClosure
+				n := 0
+				for _, r := range *al.Referrers() {
+					if st, ok := r.(*ssa.Store); ok && st.Addr == ssa.Value(al) {
+						n++
+						if m, ok := st.Val.(*ssa.MakeClosure); ok {
+							mc = m
+						}
+					}
+				}
+				if n != 1 || mc == nil {
+					return SVal{}, false
+				}
+				fn, ok := mc.Fn.(*ssa.Function)
+				if !ok {
+					return SVal{}, false
+				}
+				var binds []SVal
+				for _, bv := range mc.Bindings {
+					name := ""
+					switch t := bv.(type) {
+					case *ssa.Alloc:
+						name = t.Comment
+					case *ssa.FreeVar:
+						name = t.Name()
+					}
+					if name == "" {
+						return SVal{}, false
+					}
+					binds = append(binds, SVal{K: KLoc, Loc: name, GoT: bv.Type(), Src: name})
+				}
+				return SVal{K: KClosure, Fn: fn, Binds: binds, GoT: mc.Type()}, true
+			}
+		}
+	}
+	return SVal{}, false
 }
 
 func chanElem(t types.Type) types.Type {
